@@ -229,3 +229,12 @@ define void @""() {
   ret void
 }
 @q = global void ()* @2
+;;; ATOM module/datalayout-program-addrspace-implicit
+target datalayout = "P1"
+declare i32 @h(i8)
+@t = global i64 ptrtoint (i32 (i8) addrspace(1)* @h to i64)
+;;; ATOM global/alias-folded-expression-aliasee
+@g = global i32 0
+@h = global i32 1
+@a = alias i32, i32* select (i1 true, i32* @g, i32* @h)
+@b = alias i32, i32* select (i1 false, i32* @g, i32* @h)
